@@ -186,6 +186,8 @@ type DocGen struct {
 	r            *Rng
 	sch          *Schema
 	nid          int
+	issued       map[string]bool
+	issuedList   []string
 	maxDep       int
 	noGraph      bool
 	emptyOK      bool // allow empty strings
@@ -251,7 +253,24 @@ func (g *DocGen) newType(depth int) *TypeDef {
 
 func (g *DocGen) iri(prefix string) string {
 	g.nid++
-	return fmt.Sprintf("urn:ex:%s:%d-%d", prefix, g.nid, g.r.Intn(1000))
+	if g.issued == nil {
+		g.issued = map[string]bool{}
+	}
+	// identifiers that continue one another (items/1, items/12, items/1#a): their order as strings is not their order in
+	// the canonical N-Quads (where '>' closes the shorter one)
+	if len(g.issuedList) > 0 && g.r.Chance(20) {
+		base := g.issuedList[g.r.Intn(len(g.issuedList))]
+		id := base + g.r.Pick([]string{"2", "0", "/x", "#a", ":b", "-c", ".d", "a", "~", "%20", "=", "?q", "@z"})
+		if !g.issued[id] {
+			g.issued[id] = true
+			g.issuedList = append(g.issuedList, id)
+			return id
+		}
+	}
+	id := fmt.Sprintf("urn:ex:%s:%d-%d", prefix, g.nid, g.r.Intn(1000))
+	g.issued[id] = true
+	g.issuedList = append(g.issuedList, id)
+	return id
 }
 
 func (g *DocGen) litFor(dt string) *ALit {
